@@ -29,7 +29,10 @@ def call_pool(binp, seed, n_schema, n_simple):
 
 def make_call(rng, sc, qc):
     if rng.random() < 0.7:
-        return {"kind": rng.choice(["oneshot", "oneshot", "validator"]), "schema": rng.choice(sc)}
+        c = {"kind": rng.choice(["oneshot", "oneshot", "validator"]), "schema": rng.choice(sc)}
+        if rng.random() < 0.06:
+            c["nil_schema"] = True          # validate.AgainstSchema(nil, ...) / NewSchemaValidator(nil, ...): accepted by the API
+        return c
     c = rng.choice(qc)
     return {"kind": "header" if c.get("header") else "param", "simple": c}
 
